@@ -168,6 +168,13 @@ def classify(res, events, pid):
                         and r2['upto'] == run['upto'] and r2['et'] == run['et'] and (eid, j + 1) in dirty:
                     sib_clean = False
         props = attribute(tag, run, sib_clean)
+        if tag == 'panic' and run['fam'] == 'slice':
+            # the slicing result does not exist while the struct decoder of the same door answers: the two families do not agree (C04)
+            for r2 in e['runs']:
+                if r2['fam'] == 'struct' and r2['m'] == run['m'] and r2['entry'] == run['entry'] and r2['skip'] == run['skip'] \
+                        and r2['upto'] == run['upto'] and r2['et'] == run['et'] and r2.get('res', {}).get('v') != 'panic':
+                    props = props + ['C04']
+                    break
         if 'SPEC' in props:
             spec_errs.append((eid, run['api'], tag))
         if pid in props:
